@@ -95,8 +95,9 @@ def merge(results):
         if r.get("monitor_faults"):
             m["problems"].append({"status": "monitor-fault", "shard": r["shard"], "error": r["monitor_faults"][0]})
         for q, ent in r.get("reach", {}).items():
-            e = m["reach"].setdefault(q, {"executed": 0, "executable": ent["executable"], "hit_text": set()})
+            e = m["reach"].setdefault(q, {"executed": 0, "executable": ent["executable"], "hit_text": set(), "all_text": set()})
             e["hit_text"].update(ent["hit_text"])
+            e["all_text"].update(ent.get("all_text", []))
     return m
 
 
@@ -144,14 +145,14 @@ def main(argv=None):
         q: {"executed": len(e["hit_text"]), "executable": e["executable"]} for q, e in m["reach"].items()
     }
     landmarks = getattr(mod, "LANDMARKS", {})
-    lm = core.landmark_hits({q: {"hit_text": e["hit_text"]} for q, e in m["reach"].items()}, landmarks)
+    lm = core.landmark_hits({q: {"hit_text": e["hit_text"], "all_text": e["all_text"]} for q, e in m["reach"].items()}, landmarks)
     inconclusive = []
     if not args.replay:
         inconclusive.extend(extra_inconclusive)
         for p in m["problems"]:
             inconclusive.append(f"worker:{p.get('status')}:shard{p.get('shard')}")
         for name, hit in lm.items():
-            if not hit:
+            if hit is False:
                 inconclusive.append(f"landmark-not-reached:{name}")
         for name in getattr(mod, "REQUIRED_MONITORS", []):
             if m["monitor_calls"].get(name, 0) == 0:
